@@ -719,7 +719,7 @@ theorem term_cell_plain {S : Schema} (K : KeyOrderOn S P) {o : MergeOpts} {sin :
     (hsex : exactE S P sin y0 src = true) (hls : litN src = true)
     (hgy : ∀ y, y0 = some y → goodN S P y = true ∧ y.sid = src.sid)
     {sop : Op} (hsop : effOp src sin = some sop) (hy : y0.map normN = some (normN (.term s f [] v)))
-    (hos : (∃ op, ownOp src = some op) ∨ (src.metas = [] ∧ sop = .delete)) :
+    (hos : (∃ op, ownOp src = some op) ∨ (src.metas = [] ∧ (sop = .delete ∨ sop = .create))) :
     ∃ m, mergeCell S o sop (.term s f [] v) .create src = .ok (m, false) ∧ Dom S P m ∧ m.isTerm = true ∧ m.sid = s ∧
       (∀ x, matchP S m x = matchP S (.term s f [] v) x) ∧
       (((isRedundant S (some .create) m).2 = true ∧ tEff src sop = none) ∨
@@ -829,7 +829,7 @@ theorem term_cell {S : Schema} (K : KeyOrderOn S P) {o : MergeOpts}
     {cop sop : Op} (hcop : effOp t cur = some cop) (hsop : effOp src sin = some sop) (hy : y0.map normN = tEff t cop)
     (hsafe : safeP S cur sin t src = true)
     (hot' : (∃ op, ownOp t = some op) ∨ (t.metas = [] ∧ cur = some .create))
-    (hos' : (∃ op, ownOp src = some op) ∨ (src.metas = [] ∧ sop = .delete)) :
+    (hos' : (∃ op, ownOp src = some op) ∨ (src.metas = [] ∧ (sop = .delete ∨ sop = .create))) :
     ∃ m, mergeCell S o sop t cop src = .ok (m, false) ∧ Dom S P m ∧ m.isTerm = true ∧ m.sid = t.sid ∧
       (∀ x, matchP S m x = matchP S t x) ∧
       (((isRedundant S cur m).2 = true ∧ tEff src sop = x0.map normN) ∨
@@ -840,7 +840,7 @@ theorem term_cell {S : Schema} (K : KeyOrderOn S P) {o : MergeOpts}
         (∀ x, matchP S m x = matchP S t x) ∧ (∃ op, ownOp m = some op) ∧
         (((isRedundant S none m).2 = true ∧ tEff src sop = x0.map normN) ∨
           ((isRedundant S none m).2 = false ∧ Acts S P fx cur m (x0.map normN) (tEff src sop))) := by
-      rcases hos' with hos' | ⟨hmeta, rfl⟩
+      rcases hos' with hos' | ⟨hmeta, hsd2⟩
       · exact term_cell_own K hq htt hst hm htex hlt hsex hls hgx hgy hcop hsop hy hsafe hot' hos'
       · cases src with
         | inner => simp [DNode.isTerm] at hst
@@ -848,29 +848,59 @@ theorem term_cell {S : Schema} (K : KeyOrderOn S P) {o : MergeOpts}
           simp only [DNode.metas] at hmeta
           subst hmeta
           obtain ⟨hsd, _, hsk⟩ := exactE_base hsex
-          obtain ⟨y, rfl, hdq, _⟩ := exactE_delete hsex hsop
-          let src' : DNode := .term s f2 [("operation", bs "delete")] v2
-          have hown' : ownOp src' = some .delete := ownOp_of_metas src' .delete rfl
-          have hsd' : Dom S P src' := ⟨hsd.nuo, hsd.ndi, hsd.typed, by
-            rw [K.pinv.pcongr (x := src') (y := .term s f2 [] v2) rfl rfl rfl]; exact hsd.sat⟩
-          have hsex' : exactE S P none (some y) src' = true := by
-            have hd : domB S P src' = true := domB_iff.mpr hsd'
-            have hk : S.isKey s = false := hsk
-            simp only [src', exactE, effOp_own' hown' none, Bool.and_eq_true]
-            refine ⟨⟨⟨hd, by simp [metaOKB, DNode.metas]⟩, by simp [hk]⟩, ?_⟩
-            have hn := (dataEq_iff_norm y (.term s f2 [] v2)).mp hdq
-            exact (dataEq_iff_norm y (.term s f2 [("operation", bs "delete")] v2)).mpr (by rw [hn]; rfl)
-          have hm' : matchP S src' t = true := by
-            rw [matchP_of_same_data (d := .term s f2 [] v2) (d' := src') hsd.ndi rfl rfl rfl]; exact hm
-          have hsafe' : safeP S cur none t src' = true := by
-            have e1 : effOp (DNode.term s f2 [("operation", bs "delete")] v2) none = some .delete := effOp_own' hown' none
-            simp only [safeP, hsop] at hsafe
-            show safeP S cur none t (.term s f2 [("operation", bs "delete")] v2) = true
-            simp only [safeP, e1]
-            simpa using hsafe
-          obtain ⟨m, hcell, rest⟩ := term_cell_own (fx := fx) K hq htt (show src'.isTerm = true from rfl) hm' htex hlt hsex'
-            (by simp [src', litN, litMeta]) hgx hgy hcop (effOp_own' hown' none) hy hsafe' hot' ⟨_, hown'⟩
-          exact ⟨m, hcell, rest⟩
+          have hk : S.isKey s = false := hsk
+          rcases hsd2 with rfl | rfl
+          · -- a copy inside a deleted subtree
+            obtain ⟨y, rfl, hdq, _⟩ := exactE_delete hsex hsop
+            let src' : DNode := .term s f2 [("operation", bs "delete")] v2
+            have hown' : ownOp src' = some .delete := ownOp_of_metas src' .delete rfl
+            have hsd' : Dom S P src' := ⟨hsd.nuo, hsd.ndi, hsd.typed, by
+              rw [K.pinv.pcongr (x := src') (y := .term s f2 [] v2) rfl rfl rfl]; exact hsd.sat⟩
+            have hsex' : exactE S P none (some y) src' = true := by
+              have hd : domB S P src' = true := domB_iff.mpr hsd'
+              simp only [src', exactE, effOp_own' hown' none, Bool.and_eq_true]
+              refine ⟨⟨⟨hd, by simp [metaOKB, DNode.metas]⟩, by simp [hk]⟩, ?_⟩
+              have hn := (dataEq_iff_norm y (.term s f2 [] v2)).mp hdq
+              exact (dataEq_iff_norm y (.term s f2 [("operation", bs "delete")] v2)).mpr (by rw [hn]; rfl)
+            have hm' : matchP S src' t = true := by
+              rw [matchP_of_same_data (d := .term s f2 [] v2) (d' := src') hsd.ndi rfl rfl rfl]; exact hm
+            have hsafe' : safeP S cur none t src' = true := by
+              have e1 : effOp (DNode.term s f2 [("operation", bs "delete")] v2) none = some .delete := effOp_own' hown' none
+              simp only [safeP, hsop] at hsafe
+              show safeP S cur none t (.term s f2 [("operation", bs "delete")] v2) = true
+              simp only [safeP, e1]
+              simpa using hsafe
+            obtain ⟨m, hcell, rest⟩ := term_cell_own (fx := fx) K hq htt (show src'.isTerm = true from rfl) hm' htex hlt hsex'
+              (by simp [src', litN, litMeta]) hgx hgy hcop (effOp_own' hown' none) hy hsafe' hot' ⟨_, hown'⟩
+            exact ⟨m, hcell, rest⟩
+          · -- a copy inside a created subtree
+            obtain ⟨rfl, _⟩ := exactE_create hsex hsop
+            let src' : DNode := .term s f2 [("operation", bs "create")] v2
+            have hown' : ownOp src' = some .create := ownOp_of_metas src' .create rfl
+            have hsd' : Dom S P src' := ⟨hsd.nuo, hsd.ndi, hsd.typed, by
+              rw [K.pinv.pcongr (x := src') (y := .term s f2 [] v2) rfl rfl rfl]; exact hsd.sat⟩
+            have hsex' : exactE S P none none src' = true := by
+              have hd : domB S P src' = true := domB_iff.mpr hsd'
+              simp only [src', exactE, effOp_own' hown' none, Bool.and_eq_true]
+              exact ⟨⟨⟨hd, by simp [metaOKB, DNode.metas]⟩, by simp [hk]⟩, trivial⟩
+            have hm' : matchP S src' t = true := by
+              rw [matchP_of_same_data (d := .term s f2 [] v2) (d' := src') hsd.ndi rfl rfl rfl]; exact hm
+            have hsafe' : safeP S cur none t src' = true := by
+              have e1 : effOp (DNode.term s f2 [("operation", bs "create")] v2) none = some .create := effOp_own' hown' none
+              simp only [safeP, hsop] at hsafe
+              show safeP S cur none t (.term s f2 [("operation", bs "create")] v2) = true
+              simp only [safeP, e1]
+              simpa using hsafe
+            obtain ⟨m, hcell, rest⟩ := term_cell_own (fx := fx) K hq htt (show src'.isTerm = true from rfl) hm' htex hlt hsex'
+              (by simp [src', litN, litMeta]) hgx hgy hcop (effOp_own' hown' none) hy hsafe' hot' ⟨_, hown'⟩
+            have hcong : mergeCell S o .create t cop (.term s f2 [] v2) = mergeCell S o .create t cop src' := by
+              have huo : S.isUserOrd s = false := hsd.nuo
+              show mergeCreate S o t cop (.term s f2 [] v2) = mergeCreate S o t cop (.term s f2 [("operation", bs "create")] v2)
+              unfold mergeCreate
+              cases cop <;>
+                simp only [pj_sid_term, huo, Bool.false_eq_true, ↓reduceIte, pj_val_term, pj_flags_term, sameInst, pj_kids_term] <;>
+                rfl
+            exact ⟨m, hcong.trans hcell, rest⟩
     obtain ⟨m, h1, h2, h3, h4, h5, ⟨opm, hopm⟩, h6⟩ := hown
     refine ⟨m, h1, h2, h3, h4, h5, ?_⟩
     rw [isRedundant_own S cur none m opm hopm]
